@@ -1913,9 +1913,16 @@ class Filter(Blockwise):
                     # sum is in the predicate of parent, then removing self would
                     # alter the condition of parent because the sum changes, this is
                     # only relevant in broadcasting cases
-                    return self.frame[
-                        self.predicate & parent.predicate.substitute(self, self.frame)
-                    ]
+                    predicate = parent.predicate.substitute(self, self.frame)
+                    filters = (FilterAlign, Filter)
+                    if {e._name for e in predicate.find_operations(filters)} - {
+                        e._name for e in self.frame.find_operations(filters)
+                    }:
+                        # The predicate reads filtered rows through something other
+                        # than self (e.g. a copy of self that an Index or Projection
+                        # was pushed into), so it doesn't line up with self.frame
+                        return
+                    return self.frame[self.predicate & predicate]
         if isinstance(parent, Projection):
             if self.frame._filter_passthrough_available(self, dependents):
                 # We can't push Projections through filters if the preceding operation
